@@ -64,9 +64,11 @@ func c11Program(exprs []c11Expr) (src string, text string) {
 		}
 		with = append(with, fmt.Sprintf("f%d", k))
 	}
-	sb.WriteString("replace all ('7' = cap) with " + strings.Join(with, " '|' ") + "\n")
+	// two matches with different environments (match = cap = "7", then "3"): the same expression tree is
+	// evaluated twice in one run and must not remember the first result
+	sb.WriteString("replace all (digit = cap) with " + strings.Join(with, " '|' ") + "\n")
 	sb.WriteString(strings.Join(finds, "\n"))
-	return sb.String(), "7" + predLetters
+	return sb.String(), "7" + predLetters + "3"
 }
 
 func c11Check(r *drv.Run, exprs []c11Expr, src string, text string, c *wire.Case, res *wire.Result) {
@@ -98,60 +100,73 @@ func c11Check(r *drv.Run, exprs []c11Expr, src string, text string, c *wire.Case
 		r.Inconclusive("step budget")
 		return
 	}
-	// expected
-	tenv := c11Env("7")
-	tenv["cap"] = proc.Str("7")
-	var wantParts []string
+	// expected, per transform environment
+	digits := []string{"7", "3"}
+	wantParts := make([][]string, len(digits))
 	wantFind := map[byte]bool{}
-	for k, x := range exprs {
-		v, ok := proc.Eval(x.e, tenv)
-		if !ok {
-			r.Inconclusive("generator produced an undefined cell: " + x.src)
-			return
-		}
-		if v.T == proc.TBool {
-			if v.B {
-				wantParts = append(wantParts, "T")
-			} else {
-				wantParts = append(wantParts, "F")
-			}
-			penv := c11Env(string(predLetters[k]))
-			pv, ok := proc.Eval(x.e, penv)
+	for di, dg := range digits {
+		tenv := c11Env(dg)
+		tenv["cap"] = proc.Str(dg)
+		for k, x := range exprs {
+			v, ok := proc.Eval(x.e, tenv)
 			if !ok {
 				r.Inconclusive("generator produced an undefined cell: " + x.src)
 				return
 			}
-			wantFind[predLetters[k]] = pv.AsBool()
-		} else {
-			wantParts = append(wantParts, v.AsString())
+			if v.T == proc.TBool {
+				if v.B {
+					wantParts[di] = append(wantParts[di], "T")
+				} else {
+					wantParts[di] = append(wantParts[di], "F")
+				}
+				if di == 0 {
+					penv := c11Env(string(predLetters[k]))
+					pv, ok := proc.Eval(x.e, penv)
+					if !ok {
+						r.Inconclusive("generator produced an undefined cell: " + x.src)
+						return
+					}
+					wantFind[predLetters[k]] = pv.AsBool()
+				}
+			} else {
+				wantParts[di] = append(wantParts[di], v.AsString())
+			}
 		}
 	}
-	want := strings.Join(wantParts, "|")
-	var gotRepl string
+	var gotRepls []string
 	gotFind := map[byte]bool{}
-	haveRepl := false
 	for _, m := range run.Matches {
 		if m.HasRepl {
-			gotRepl = string(m.Repl)
-			haveRepl = true
+			gotRepls = append(gotRepls, string(m.Repl))
 		} else if len(m.Val) == 1 {
 			gotFind[m.Val[0]] = true
 		}
 	}
 	r.Eval(len(exprs))
-	if !haveRepl {
-		r.Violate(&drv.Violation{Sig: "no-replacement-produced", Src: src, Text: text, Case: c})
-		return
-	}
-	gotParts := strings.Split(gotRepl, "|")
-	if len(gotParts) != len(wantParts) {
-		r.Violate(&drv.Violation{Sig: "replacement-shape", Src: src, Text: text, Case: c, Detail: map[string]any{"expected": want, "observed": gotRepl}})
+	if len(gotRepls) != len(digits) {
+		r.Violate(&drv.Violation{Sig: "no-replacement-produced", Src: src, Text: text, Case: c, Detail: map[string]any{"replacements": len(gotRepls)}})
 		return
 	}
 	for k, x := range exprs {
-		if gotParts[k] != wantParts[k] {
-			r.Violate(&drv.Violation{Sig: "value:" + x.label, Src: src, Text: text, Case: c,
-				Detail: map[string]any{"expression": x.src, "expected": wantParts[k], "observed": gotParts[k], "channel": "transform"}})
+		bad := false
+		for di := range digits {
+			gotParts := strings.Split(gotRepls[di], "|")
+			if len(gotParts) != len(wantParts[di]) {
+				r.Violate(&drv.Violation{Sig: "replacement-shape", Src: src, Text: text, Case: c, Detail: map[string]any{"expected": strings.Join(wantParts[di], "|"), "observed": gotRepls[di]}})
+				return
+			}
+			if gotParts[k] != wantParts[di][k] {
+				lab := "value:"
+				if di > 0 && gotParts[k] == wantParts[0][k] {
+					lab = "value-remembered-from-earlier-evaluation:"
+				}
+				r.Violate(&drv.Violation{Sig: lab + x.label, Src: src, Text: text, Case: c,
+					Detail: map[string]any{"expression": x.src, "environment": "match = cap = " + digits[di], "expected": wantParts[di][k], "observed": gotParts[k], "channel": "transform"}})
+				bad = true
+				break
+			}
+		}
+		if bad {
 			continue
 		}
 		if w, isBool := wantFind[predLetters[k]]; isBool && gotFind[predLetters[k]] != w {
@@ -212,6 +227,11 @@ func C11(r *drv.Run) {
 				if _, ok := proc.Eval(e, c11Env("a")); !ok {
 					continue
 				}
+				env3 := c11Env("3")
+				env3["cap"] = proc.Str("3")
+				if _, ok := proc.Eval(e, env3); !ok {
+					continue
+				}
 				all = append(all, c11Expr{e, proc.Render(e, false), opLabel(e)})
 			}
 		}
@@ -249,6 +269,11 @@ func C11(r *drv.Run) {
 				if _, ok := proc.Eval(e, c11Env(string(l))); !ok {
 					okAll = false
 				}
+			}
+			envB := c11Env("3")
+			envB["cap"] = proc.Str("3")
+			if _, ok := proc.Eval(e, envB); !ok {
+				okAll = false
 			}
 			if _, ok := proc.Eval(e, envA); !ok || !okAll {
 				continue
